@@ -54,4 +54,10 @@ def handleArpC : List String → Option String
     pure s!"{m}\t{b2s v}"
   | _ => none
 
+/-- a cache file with IPv6 neighbours among its lines: it loads, and "no address" has no entry (the lookup
+    `getGatewayMAC` makes when the interface has no default route) -/
+def handleArpNil : List String → Option String
+  | [_ls, obs] => pure s!"nilhit=0\t{b2s (obs == "nilhit=0")}"
+  | _ => none
+
 end Driver.A
